@@ -46,6 +46,11 @@ class Runner:
         if r.returncode != 0:
             print(f"BUILD-FAILED flavour={flav} (the repository working tree does not compile)"); sys.exit(2)
         self.bin = r.stdout.strip().splitlines()[-1]
+        # helper binaries of other flavours (e.g. the serial / OpenMP runners of C13), exported to the driver through the environment
+        for var, (fl, name) in self.cfg.get("runner_env", {}).items():
+            rr = subprocess.run([sys.executable, os.path.join(VERIF, "build.py"), fl, name], stdout=subprocess.PIPE, text=True)
+            if rr.returncode != 0: print(f"BUILD-FAILED flavour={fl}"); sys.exit(2)
+            self.env[var] = rr.stdout.strip().splitlines()[-1]
 
     def known(self):
         path = os.path.join(VERIF, "known_findings.json")
